@@ -54,6 +54,13 @@ class FakePath(PosixPath):
         FS.touched.append(str(self))
         FS.files.setdefault(str(self), "")
 
+    def unlink(self, missing_ok=False):
+        if str(self) not in FS.files:
+            if missing_ok:
+                return
+            raise FileNotFoundError(2, "no such file", str(self))
+        del FS.files[str(self)]
+
 
 def fs_open(path, mode="r", encoding=None, newline=None):
     p = str(path)
